@@ -236,7 +236,7 @@ Move(assign) ==
                    awin, alen, aoff, abase, abaselen, aown, nwrites, nobjs, done>>
     /\ Rec(IF assign THEN "move_assign" ELSE "move_ctor", 0, 0, mode, 0)
 
-Finish == /\ ~done /\ ~obj /\ (nobjs = MaxObjs \/ nops >= MaxOps) /\ done' = TRUE
+Finish == /\ ~done /\ ~obj /\ (nobjs = MaxObjs \/ nops >= MaxOps \/ (fdk = "bad" /\ nops >= 2)) /\ done' = TRUE
           /\ UNCHANGED <<fdk, fsize, fcont, obj, valid, msize, off, mode, esz, vma, mem, ierr,
                          awin, alen, aoff, abase, abaselen, aown, aerr, nops, nwrites, nobjs, hist>>
 
